@@ -198,6 +198,47 @@ Theorem c12_nalu_reader_inversion data n :
   nalu_marshal n = clear_forbidden data.
 Proof. intros W E. split; [exact (nalu_unmarshal_inv data n E)|exact (nalu_reenc data n W E)]. Qed.
 
+(* HISTORIES AND KEPT RESULTS.  NALU, record and sample objects are plain values (avc_obj in slots):
+   UnmarshalBinary stores what it parsed (appending to the lists), the caller may assign any field
+   (obj_update: header fields and Data of a NALU object or of the idx-th unit of a list, append,
+   list := nil, the scalar fields), MarshalBinary writes the current field values; nothing is
+   remembered from earlier calls and results are values (the harness keeps every returned slice,
+   overwrites replaced Data slices, marshals other objects -- also from a second goroutine --
+   and re-reads all results after the last operation).
+   After ANY sequence of operations on any number of objects, MarshalBinary of the object in slot
+   k returns the marshalling of its CURRENT value v and changes no object; when v is within the
+   property's ranges that is, byte for byte, the ISO layout of the current field values. *)
+Theorem c12_history_marshal s ops k v :
+  slot_get (fst (avc_run s ops)) k = Some v ->
+  avc_run s (ops ++ [AMarshal k]) = (fst (avc_run s ops), snd (avc_run s ops) ++ [SL [SZ 0; SB (obj_marshal v)]]) /\
+  (obj_in_range v -> obj_marshal v = obj_spec v).
+Proof. intros H. split; [exact (avc_history_marshal s ops k v H)|exact (obj_marshal_spec v)]. Qed.
+
+(* two objects marshalled in one step (concurrently in the implementation): each result is its own
+   object's marshalling *)
+Theorem c12_history_marshal2 s ops k1 k2 v1 v2 :
+  slot_get (fst (avc_run s ops)) k1 = Some v1 -> slot_get (fst (avc_run s ops)) k2 = Some v2 ->
+  avc_run s (ops ++ [AMarshal2 k1 k2]) =
+  (fst (avc_run s ops), snd (avc_run s ops) ++ [SL [SZ 0; SB (obj_marshal v1); SB (obj_marshal v2)]]).
+Proof. exact (avc_history_marshal2 s ops k1 k2 v1 v2). Qed.
+
+(* a field assignment replaces the object's value by the pure update of it, and every operation
+   leaves all other objects as they were *)
+Theorem c12_history_update s op v v' :
+  is_update op = true -> slot_get s (op_slot op) = Some v -> obj_update v op = Some v' ->
+  avc_step s op = (slot_set s (op_slot op) v', SL [SZ 0]).
+Proof. exact (avc_step_update s op v v'). Qed.
+
+Theorem c12_history_objects_independent s op k' :
+  k' <> op_slot op -> slot_get (fst (avc_step s op)) k' = slot_get s k'.
+Proof. exact (avc_step_other s op k'). Qed.
+
+(* the remembered-slice shape: unmarshal 65 19, replace Data by a slice of the same length, marshal *)
+Example c12_history_witness :
+  snd (avc_run [] [ANew 0 2 0; AUnmarshal 0 [101; 25]; AMarshal 0; ASetNalu 0 (mk_nalu 3 5 [238]); AMarshal 0]) =
+  [SL [SZ 0]; SL [SZ 0; SL [SZ 3; SZ 5; SB [25]]]; SL [SZ 0; SB [101; 25]]; SL [SZ 0]; SL [SZ 0; SB [101; 238]]].
+Proof. vm_compute. reflexivity. Qed.
+
 (* Totality: no byte string makes a reader panic, for any receiver state and -- for the sample
    reader -- any length size 1..256 (lsm1 any uint8; cd951da); the sample loop's fuel is never
    the reason for stopping. *)
@@ -259,6 +300,11 @@ Print Assumptions c12_iso_read.
 Print Assumptions c12_canonical_reenc.
 Print Assumptions c12_reader_inversion.
 Print Assumptions c12_reenc_canonicalises.
+Print Assumptions c12_history_marshal.
+Print Assumptions c12_history_marshal2.
+Print Assumptions c12_history_update.
+Print Assumptions c12_history_objects_independent.
+Print Assumptions c12_history_witness.
 Print Assumptions c12_sample_reader_inversion.
 Print Assumptions c12_nalu_reader_inversion.
 Print Assumptions avc_nalu_dec_total.
